@@ -720,6 +720,22 @@ _in("in.message.media.unknown", L_MEDIA, None, "message",
           "(so here the reaction DOES depend on the optional media module)")
 
 
+def _pb_contacts_array(rng, v):
+    m = _pb().Message()
+    m.contacts_array_message.display_name = gen_text(rng, 1, 20)
+    c = m.contacts_array_message.contacts.add()
+    c.display_name = gen_text(rng, 1, 12)
+    c.vcard = b"BEGIN:VCARD\nVERSION:3.0\nFN:x\nEND:VCARD"
+    return m
+
+
+_in("in.message.media.unknown_payload", L_MEDIA, None, "message",
+    _in_media_message("contact_array", _pb_contacts_array), module="media",
+    variants=MSG_VARIANTS, reaction=react_read_receipt, reaction_layer=L_MEDIA,
+    notes="mediatype without entity class whose payload is none of the payloads the library knows either: consumed, the media layer "
+          "sends a read receipt itself")
+
+
 # --------------------------------------------------------------------------- #
 # incoming: receipts, acks, presence, chatstate
 # --------------------------------------------------------------------------- #
@@ -1080,10 +1096,17 @@ L_IQ = "YowIqProtocolLayer"
 
 
 def _in_iq_ping(rng, variant, request):
-    return N("iq", {"type": "get", "xmlns": "urn:xmpp:ping", "from": DOMAIN, "id": "%s-ping" % gen_ts(rng)})
+    attrs = {"type": "get", "xmlns": "urn:xmpp:ping", "from": DOMAIN, "id": "%s-ping" % gen_ts(rng)}
+    if variant == "addressed":
+        attrs["to"] = "%s@%s" % (gen_phone(rng), DOMAIN)        # the server may address the ping: from AND to
+    elif variant == "untyped":
+        del attrs["type"]                                          # a ping is recognised by its namespace
+    elif variant == "t":
+        attrs["t"] = gen_ts(rng)
+    return N("iq", attrs)
 
 
-_in("in.iq.get.ping", L_IQ, None, "iq", _in_iq_ping, reaction=react_pong, reaction_layer=L_IQ,
+_in("in.iq.get.ping", L_IQ, None, "iq", _in_iq_ping, reaction=react_pong, reaction_layer=L_IQ, variants=("addressed", "untyped", "t"),
     notes="consumed; answered with <iq type=result xmlns=w:p to=s.whatsapp.net id=same>")
 
 
@@ -1361,6 +1384,18 @@ _TEXT = _p("protocol_messages", "message_text", "TextMessageProtocolEntity")
 _out("out.message.text", L_MSG, _TEXT, "message", _draw_text,
      lambda v: _out_message_node(v, "text", pb_conversation(v["body"])),
      lambda v: load_class(_TEXT)(v["body"], _meta_of(v)))
+
+
+def _draw_text_directed(rng):
+    v = {"id": gen_id(rng), "to": gen_gjid(rng), "participant": gen_jid(rng), "body": gen_text(rng, 1, 200)}
+    return v
+
+
+_out("out.message.text.directed", L_MSG, _TEXT, "message", _draw_text_directed,
+     lambda v: N("message", {"type": "text", "id": v["id"], "to": v["to"], "participant": v["participant"]},
+                 [N("proto", {}, None, pb_conversation(v["body"]).SerializeToString())]),
+     lambda v: load_class(_TEXT)(v["body"], _A("attributes_message_meta", "MessageMetaAttributes")(id=v["id"], recipient=v["to"], participant=v["participant"])),
+     notes="a group message addressed to one participant (what the send layer builds when it re-sends after a retry receipt)")
 
 
 def _draw_broadcast(rng):
